@@ -37,10 +37,13 @@ class HarnessError(Exception):
 # --------------------------------------------------------------------------
 # context
 # --------------------------------------------------------------------------
+SOLVER_TIMEOUT_MS = 60000      # per query; raised in the thorough tier (core.run_property)
+
+
 class Ctx(object):
-    def __init__(self, decisions=(), solver_timeout_ms=60000):
+    def __init__(self, decisions=(), solver_timeout_ms=None):
         self.solver = z3.Solver()
-        self.solver.set('timeout', solver_timeout_ms)
+        self.solver.set('timeout', solver_timeout_ms or SOLVER_TIMEOUT_MS)
         self.decisions = list(decisions)
         self.forced = [True] * len(self.decisions)
         self.pos = 0
